@@ -87,3 +87,30 @@ pub fn source_literals(crates: &[&str], max_len: usize) -> Vec<Vec<u8>> {
     }
     set.into_iter().collect()
 }
+
+/// Names of process-environment variables the library sources may read: every literal made of
+/// capitals, digits and underscores (3+ bytes) in a source file that mentions `env::` or `env!`/
+/// `option_env!` - the process environment is an input like any other ("env pass" in main.rs).
+pub fn env_names() -> Vec<String> {
+    let root = std::env::var("VERIF_REPO").unwrap_or_else(|_| "/repo".into());
+    let mut set = BTreeSet::new();
+    for c in ["passkey", "passkey-authenticator", "passkey-client", "passkey-transports", "passkey-types", "public-suffix"] {
+        let mut files = vec![];
+        walk(&Path::new(&root).join(c).join("src"), &mut files);
+        for f in files {
+            if f.file_name().map(|n| n == "tld_list.rs").unwrap_or(false) {
+                continue;
+            }
+            let Ok(t) = std::fs::read_to_string(&f) else { continue };
+            if !(t.contains("env::") || t.contains("env!(") || t.contains("var_os(") || t.contains("env::var")) {
+                continue;
+            }
+            for l in literals_of(&t) {
+                if l.len() >= 3 && l.len() <= 64 && l[0].is_ascii_uppercase() && l.iter().all(|b| b.is_ascii_uppercase() || b.is_ascii_digit() || *b == b'_') {
+                    set.insert(String::from_utf8_lossy(&l).to_string());
+                }
+            }
+        }
+    }
+    set.into_iter().collect()
+}
